@@ -195,7 +195,9 @@ def _intersect3d(ray1, ray2, tol):
     ray1_pt = ray1.eval(t1)
     ray2_pt = ray2.eval(t2)
 
-    if linalg.point_distance(ray1_pt, ray2_pt) < tol:
+    # The evaluated points carry rounding errors proportional to their magnitude
+    scale = max([1.0] + [abs(c) for c in ray1_pt] + [abs(c) for c in ray2_pt])
+    if linalg.point_distance(ray1_pt, ray2_pt) < tol * scale:
         return t1, t2, RayIntersection.INTERSECT
     else:
         return t1, t2, RayIntersection.SKEW
